@@ -95,6 +95,19 @@ func ghost_calls_bulkLoad() int                            { panic("ghost") }
 func ghost_ret_bulkLoad_0[K comparable, V any]() map[K]V   { panic("ghost") }
 func ghost_ret_bulkLoad_1() error                          { panic("ghost") }
 
+func ghost_chanSent[K comparable, V any](ch <-chan RefreshResult[K, V]) int { panic("ghost") }
+func ghost_calls_Error() int                                              { panic("ghost") }
+func ghost_calls_doCall() int                                             { panic("ghost") }
+func ghost_calls_refreshKey() int                                         { panic("ghost") }
+func ghost_calls_startCall() int                                          { panic("ghost") }
+func ghost_last_startCall_c[K comparable, V any]() *call[K, V]            { panic("ghost") }
+func ghost_last_startCall_shouldLoad() bool                               { panic("ghost") }
+
+// specFresh: the entry is not yet due for a refresh
+func specFresh[K comparable, V any](n node.Node[K, V], now int64) bool {
+	return !ghost_hasRefresh() || (alive(n) && ghost_refreshableAt(n) > now)
+}
+
 // loader / completion-hook invocation log
 func ghost_calls_load() int        { panic("ghost") }
 func ghost_ret_load_0[V any]() V   { panic("ghost") }
@@ -337,6 +350,8 @@ func estOf[K comparable](s *sketch[K], k K) uint64 {
 //@ macro WHOOKS = ghost_calls_ExpireAfterCreate(), ghost_ret_ExpireAfterCreate(), ghost_calls_ExpireAfterUpdate(), ghost_ret_ExpireAfterUpdate(), ghost_calls_weigher(), ghost_ret_weigher(), $RHOOKS
 
 //@ macro CACHEFX = $MAINT, $EVLOG, $ONDEL, $ATOMICEV, $WHOOKS, ghost_calls(*), node::expiresAt, node::refreshableAt, ghost_wgDone(*), call::wg, ghost_calls_afterWrite(), ghost_calls_afterDelete(), ghost_now(), ghost_clockRead(), ghost_calls_ExpireAfterRead(), ghost_ret_ExpireAfterRead()
+
+//@ macro LOADFX = $CACHEFX, call::value, call::err, call::isNotFound, ghost_calls_load(), ghost_calls_afterFinish(), ghost_calls_doCall(), ghost_calls_startCall(), ghost_loadSuccess(), ghost_loadFailure(), ghost_calls_fn(), ghost_ret_fn(), ghost_calls_Error()
 
 //@ immutable Cache.cache, cache.nodeManager, cache.hashmap, cache.evictionPolicy, cache.expirationPolicy, cache.stats, cache.clock, cache.singleflight, cache.withTime, cache.withExpiration, cache.withRefresh, cache.withEviction, cache.isWeighted, cache.withMaintenance, cache.withStats, cache.onDeletion, cache.onAtomicDeletion, cache.expiryCalculator, cache.refreshCalculator, cache.weigher, cache.executor, cache.readBuffer, cache.writeBuffer, cache.hasDefaultExecutor, policy.isWeighted, policy.sketch, policy.window, policy.probation, policy.protected, group.calls, G:hasExp, G:hasRefresh, G:hasWeight, G:hasSize, G:hasState, G:hasExpLinks, G:key, G:value, G:weight, call.key, call.isRefresh, call.isFake
 
@@ -694,7 +709,7 @@ func estOf[K comparable](s *sketch[K], k K) uint64 {
 //@   ensures [C09:eviction-clears-call] c.singleflight.isInitialized.Load() ==> lpend(ghost_calls(c.singleflight.calls, ghost_key(n))) == nil
 //@   ensures [C05:removed-node-retired] result != nil && c.withMaintenance && lp(alive(n)) ==> lpend(ghost_state(n)) == 1
 
-//@ func (*cache).doCompute : C01 C03 C06 C09 C20 C05
+//@ func (*cache).doCompute : C01 C03 C06 C09 C20 C05 C08
 //@   mode seq,itf
 //@   panics
 //@   inline verified on its own and inlined into Compute / ComputeIfAbsent / ComputeIfPresent (their wrapper closures are executed concretely)
@@ -712,6 +727,7 @@ func estOf[K comparable](s *sketch[K], k K) uint64 {
 //@   ensures [C05:removal-tells-policy] ghost_ret_remappingFunc_1() != WriteOp && ghost_lpCur(c.hashmap) != nil && ghost_lpNew(c.hashmap) == nil ==> ghost_calls_afterDelete() == pre(ghost_calls_afterDelete()) + 1 && ghost_last_afterDelete_deleted[K, V]() == ghost_lpCur(c.hashmap)
 //@   ensures [C05:no-removal-no-delete-task] ghost_ret_remappingFunc_1() != WriteOp && ghost_lpNew(c.hashmap) == ghost_lpCur(c.hashmap) && ghost_lpCur(c.hashmap) != nil ==> ghost_calls_afterDelete() == pre(ghost_calls_afterDelete())
 //@   ensures [C09:write-clears-call] ghost_lpNew(c.hashmap) != ghost_lpCur(c.hashmap) && c.singleflight.isInitialized.Load() ==> lpend(ghost_calls(c.singleflight.calls, key)) == nil
+//@   ensures [C08:cancelled-compute-keeps-inflight-load] ghost_ret_remappingFunc_1() == CancelOp && ghost_lpNew(c.hashmap) == ghost_lpCur(c.hashmap) ==> lpend(ghost_calls(c.singleflight.calls, key)) == lp(ghost_calls(c.singleflight.calls, key))
 //@   ensures [C20:one-lookup-when-counting] recordStats ==> ghost_hits()+ghost_misses() == pre(ghost_hits()+ghost_misses()) + 1 && ghost_hits() == pre(ghost_hits()) + pickU64(lp(live(ghost_tbl(c.hashmap, key), nowNano)), 1, 0)
 //@   ensures [C20:quiet-otherwise] !recordStats ==> ghost_hits() == pre(ghost_hits()) && ghost_misses() == pre(ghost_misses())
 
@@ -783,7 +799,13 @@ func estOf[K comparable](s *sketch[K], k K) uint64 {
 //@   fresh
 //@   ensures [panic-error-nonnil] result != nil
 
+//@ func (*group).init : C08 C10 C11
+//@   assumed lazily creates the call table under a mutex (hashmap.New)
+//@   modifies g.calls, g.isInitialized
+//@   ensures [call-table-ready] g.calls != nil && g.isInitialized.Load()
+
 //@ func (*group).startCall : C08
+//@   counted
 //@   mode seq,itf
 //@   requires g.calls != nil
 //@   modifies ghost_calls(g.calls, key)
@@ -799,11 +821,14 @@ func estOf[K comparable](s *sketch[K], k K) uint64 {
 //@   ensures [C09:foreign-record-kept] ghost_clpCount(g.calls) != pre(ghost_clpCount(g.calls)) && ghost_clpCur(g.calls) != c ==> !deleted && ghost_clpNew(g.calls) == ghost_clpCur(g.calls)
 
 //@ func (*group).doCall : C08 C10
+//@   counted
 //@   panics
 //@   requires c != nil && ghost_calls_load() == 0
 //@   modifies c.value, c.err, c.isNotFound, ghost_calls_load(), ghost_calls_afterFinish(), $CACHEFX
 //@   callback afterFinish: requires [C08:finish-after-load] cb_c == c && ghost_calls_load() == 1
 //@   callback afterFinish: modifies $CACHEFX
+//@   callback afterFinish: ensures [clock-stable] pre(ghost_clockRead()) ==> ghost_clockRead() && ghost_now() == pre(ghost_now())
+//@   ensures [clock-stable] pre(ghost_clockRead()) ==> ghost_clockRead() && ghost_now() == pre(ghost_now())
 //@   ensures [C08:loader-invoked-once] ghost_calls_load() == pre(ghost_calls_load()) + 1
 //@   ensures [C08:finish-always] ghost_calls_afterFinish() == pre(ghost_calls_afterFinish()) + 1
 //@   ensures [C10:error-recorded] c.err == err && c.isNotFound == errors.Is(err, ErrNotFound)
@@ -816,6 +841,7 @@ func estOf[K comparable](s *sketch[K], k K) uint64 {
 //@   mode seq,itf
 //@   requires cfg(c) && c.singleflight != nil && cl != nil && c.singleflight.calls != nil && c.singleflight.isInitialized.Load()
 //@   modifies *
+//@   ensures [clock-stable] pre(ghost_clockRead()) ==> ghost_clockRead() && ghost_now() == pre(ghost_now())
 //@   ensures [C09:install-only-own-call] ghost_lpNew(c.hashmap) != ghost_lpCur(c.hashmap) ==> cl.isFake || (ghost_clpCur(c.singleflight.calls) == cl && ghost_clpNew(c.singleflight.calls) == nil && ghost_clpCount(c.singleflight.calls) != pre(ghost_clpCount(c.singleflight.calls)))
 //@   ensures [C10:success-installs-value] ghost_lpNew(c.hashmap) != ghost_lpCur(c.hashmap) && ghost_lpNew(c.hashmap) != nil ==> cl.err == nil && !cl.isNotFound && same(ghost_value(ghost_lpNew(c.hashmap)), cl.value) && same(ghost_key(ghost_lpNew(c.hashmap)), cl.key)
 //@   ensures [C10:failure-leaves-cache-unchanged] cl.err != nil && !cl.isNotFound ==> ghost_lpNew(c.hashmap) == ghost_lpCur(c.hashmap)
@@ -826,6 +852,7 @@ func estOf[K comparable](s *sketch[K], k K) uint64 {
 //@   ensures [C05:policy-told-iff-table-changed] ghost_calls_afterWrite() == pre(ghost_calls_afterWrite()) + pickInt(ghost_lpNew(c.hashmap) != nil && ghost_lpNew(c.hashmap) != ghost_lpCur(c.hashmap), 1, 0) && ghost_calls_afterDelete() == pre(ghost_calls_afterDelete()) + pickInt(ghost_lpNew(c.hashmap) == nil && ghost_lpCur(c.hashmap) != nil, 1, 0)
 
 //@ func (*cache).wrapLoad : C20 C08
+//@   inline verified on its own and inlined at its call sites (the closure it runs is executed concretely)
 //@   panics
 //@   requires cfg(c)
 //@   modifies ghost_loadSuccess(), ghost_loadFailure(), ghost_calls_fn(), ghost_ret_fn()
@@ -948,3 +975,34 @@ func estOf[K comparable](s *sketch[K], k K) uint64 {
 //@   ensures [C10:bulk-error-reaches-every-call] err != nil && pre(mapHas(callsInBulk, kstar)) ==> callsInBulk[kstar].err == err && !callsInBulk[kstar].isNotFound
 //@   ensures [C10:bulk-supplied-value-recorded] err == nil && pre(mapHas(callsInBulk, kstar)) && mapHas(ghost_ret_bulkLoad_0[K, V](), kstar) ==> same(callsInBulk[kstar].value, ghost_ret_bulkLoad_0[K, V]()[kstar])
 //@   ensures [C10:bulk-unsupplied-key-is-no-hit] err == nil && pre(mapHas(callsInBulk, kstar)) && !mapHas(ghost_ret_bulkLoad_0[K, V](), kstar) ==> callsInBulk[kstar].isNotFound && callsInBulk[kstar].err != nil
+
+//@ func (*cache).refreshKey : C11 C08
+//@   counted
+//@   nonblocking-sends
+//@   note assumes loaders do not panic on the executor path (a panicking Reload is re-raised by wrapLoad inside the executor closure; the suite pins that behaviour)
+//@   requires cfg(c) && c.singleflight != nil && c.singleflight.calls != nil && c.singleflight.isInitialized.Load() && ghost_calls_load() == 0
+//@   modifies $LOADFX
+//@   site doCall: requires [C08:loader-only-if-shouldLoad] shouldLoad
+//@   ensures [clock-stable] pre(ghost_clockRead()) ==> ghost_clockRead() && ghost_now() == pre(ghost_now())
+//@   ensures [C11:nil-if-unconfigured] !c.withRefresh ==> result == nil
+//@   ensures [C11:one-result-per-manual-call] c.withRefresh && isManual ==> result != nil && ghost_chanSent(result) == 1
+//@   ensures [C11:automatic-refresh-returns-no-channel] c.withRefresh && !isManual ==> result == nil
+
+//@ func (*cache).Get : C08 C10 C11 C20 C01 C03
+//@   requires cfg(c) && c.singleflight != nil && ghost_calls_load() == 0
+//@   modifies *
+//@   site doCall: requires [C08:loader-only-if-shouldLoad] shouldLoad
+//@   site refreshKey: requires [C11:refresh-only-on-stale-hit] n != nil && !specFresh(n, nowNano)
+//@   ensures [C10:hit-returns-cached-value-without-loading] liveAt(pre(ghost_tbl(c.hashmap, key)), pre(ghost_expiresAt(ghost_tbl(c.hashmap, key))), ghost_now()) ==> same(r0, ghost_value(pre(ghost_tbl(c.hashmap, key)))) && r1 == nil
+//@   ensures [C11:fresh-hit-triggers-nothing] liveAt(pre(ghost_tbl(c.hashmap, key)), pre(ghost_expiresAt(ghost_tbl(c.hashmap, key))), ghost_now()) && pre(alive(ghost_tbl(c.hashmap, key))) && (!c.withRefresh || pre(ghost_refreshableAt(ghost_tbl(c.hashmap, key))) > ghost_now()) ==> ghost_calls_refreshKey() == pre(ghost_calls_refreshKey()) && ghost_calls_doCall() == pre(ghost_calls_doCall())
+//@   ensures [C11:stale-hit-serves-old-value-and-refreshes-once] liveAt(pre(ghost_tbl(c.hashmap, key)), pre(ghost_expiresAt(ghost_tbl(c.hashmap, key))), ghost_now()) && c.withRefresh && pre(ghost_refreshableAt(ghost_tbl(c.hashmap, key))) <= ghost_now() ==> ghost_calls_refreshKey() == pre(ghost_calls_refreshKey()) + 1 && same(r0, ghost_value(pre(ghost_tbl(c.hashmap, key))))
+//@   ensures [C10:miss-returns-the-outcome-of-the-call] !liveAt(pre(ghost_tbl(c.hashmap, key)), pre(ghost_expiresAt(ghost_tbl(c.hashmap, key))), ghost_now()) ==> ghost_calls_startCall() == pre(ghost_calls_startCall()) + 1 && same(r0, ghost_last_startCall_c[K, V]().value) && r1 == ghost_last_startCall_c[K, V]().err
+//@   ensures [C08:loads-iff-it-registered-the-call] !liveAt(pre(ghost_tbl(c.hashmap, key)), pre(ghost_expiresAt(ghost_tbl(c.hashmap, key))), ghost_now()) ==> ghost_calls_doCall() == pre(ghost_calls_doCall()) + pickInt(ghost_last_startCall_shouldLoad(), 1, 0)
+//@   ensures [C20:one-lookup] ghost_hits()+ghost_misses() == pre(ghost_hits()+ghost_misses()) + 1
+
+//@ func (*cache).Refresh : C11 C20
+//@   requires cfg(c) && c.singleflight != nil && ghost_calls_load() == 0
+//@   modifies *
+//@   ensures [C11:nil-if-unconfigured] !c.withRefresh ==> result == nil
+//@   ensures [C11:one-result-per-call] c.withRefresh ==> result != nil && ghost_chanSent(result) == 1
+//@   ensures [C20:quiet] ghost_hits() == pre(ghost_hits()) && ghost_misses() == pre(ghost_misses())
